@@ -26,8 +26,10 @@ ASSUMPTIONS = [
     "check-before-credit inside ADVANCE_PHASE_OR_RETURN, top-up in GetCsgLeafNode) and phase_sites_match / reset_order_numerators_first / "
     "credit_discipline are re-proved by decide; the model's predicted final counters are compared with the real ones for every tree/DAG "
     "program; every real counter stream (sampled at every IsCancelled check) goes through MV.Progress.progressMonitor (monitor_sound)",
-    "tie of the cancellation half: ONLY the fault enumeration (harness/c15_cancel.cpp): the model's `guarded` hypothesis and the "
-    "number/positions of checks are not extracted from the C++. Programs are finite; 'all programs' is sampled, 'every k' is exhaustive "
+    "tie of the cancellation half: (a) translator tools/extract_cancel.py regenerates MV/Gen/CancelSites.lean (every function running work under a context as a sequence loop / call / check / work) "
+    "on every run; cancel_sites_guarded (kernel decide) shows every context-aware loop and in-place call is followed by a later check in its function, up to the reviewed exception lists, and "
+    "source_functions_all_or_nothing derives the `guarded` hypothesis of cancel_all_or_nothing for those programs; chunk counts and the exact positions of checks inside loops are not extracted; "
+    "(b) the fault enumeration (harness/c15_cancel.cpp). Programs are finite; 'all programs' is sampled, 'every k' is exhaustive "
     "for programs with N <= 400 checks (quick) / 1500 (thorough) and stratified (first/last 50 + one k per stratum) above that",
     "the '=1 after an uncancelled completion' clause is checked for calls on valid operands (status NoError); a static factory that "
     "returns a validation error (e.g. NotManifold) ends below 1 by design of the code and is not in the generated programs",
@@ -47,7 +49,15 @@ def regenerate(ctx):
                                                        "stderr": p.stderr[-3000:], "repo": core.REPO})
         raise core.Violation("translator failed: %s" % p.stderr.strip()[-400:], rp, no_input=True)
     after = open(GEN).read()
-    return before != after, p.stdout.strip()
+    # second translator: the cancellation discipline of every ctx-running function -> MV/Gen/CancelSites.lean
+    gen2 = os.path.join(core.LEAN, "MV", "Gen", "CancelSites.lean")
+    before2 = open(gen2).read() if os.path.exists(gen2) else None
+    p2 = core.sh(["python3", os.path.join(core.ROOT, "tools", "extract_cancel.py"), core.REPO, gen2])
+    if p2.returncode != 0:
+        rp = core.write_replay(ctx.pid, "translator-cancel", {"broken": "tools/extract_cancel.py could not read the cancellation sites of the working tree",
+                                                              "stderr": p2.stderr[-3000:], "repo": core.REPO})
+        raise core.Violation("translator failed: %s" % p2.stderr.strip()[-400:], rp, no_input=True)
+    return before != after or before2 != open(gen2).read(), p.stdout.strip() + " ; cancel sites: " + p2.stdout.strip()
 
 
 def build_harness(variant):
@@ -165,7 +175,7 @@ def run(ctx):
         return cov
     # ---- gate 1: translator + proofs
     changed, tmsg = regenerate(ctx)
-    cov["translator"] = {"cmd": "tools/extract_phases.py --repo %s" % core.REPO, "gen_file_changed_by_this_run": changed, "status": tmsg}
+    cov["translator"] = {"cmd": "tools/extract_phases.py --repo %s ; tools/extract_cancel.py %s" % (core.REPO, core.REPO), "gen_file_changed_by_this_run": changed, "status": tmsg}
     gate_violation = None
     try:
         cov.update(core.proof_gate(ctx.pid, PROPS, ["MV.Props.C15"] if ctx.tier == "thorough" else None))
@@ -180,6 +190,7 @@ def run(ctx):
                           " ; build/h/c15_cancel_<variant> | mvdriver progress")
     cov["trusted_base"] = core.TRUSTED_BASE + [
         "tools/extract_phases.py (regex extraction of constants, site counts, store orders from the working tree)",
+        "tools/extract_cancel.py (statement-level reading of every function that runs work under a context: loops / calls handed the context, IsCancelled checks, in source order with nested blocks flattened; loop structure is lost) and the reviewed exception lists of MV/Model/CancelSites.lean (valueCallees, tailFns, entryChecked)",
         "MANIFOLD_VERIF hook onCancelCheck in IsCancelled (src/execution_impl.h): the countdown fires Cancel() on a copy of the context from inside the k-th check",
         "FNV-1a hash over every MeshGL64 field (+status) as the bit-identity test; original IDs renamed by first occurrence (they come from a process-global counter)",
         "virtual TBB shim (harness/vtbb) for the parallel code paths in the thorough tier",
